@@ -9,6 +9,7 @@
 from __future__ import annotations
 
 import dataclasses
+import re
 from typing import TYPE_CHECKING, Literal
 
 import libcst as cst
@@ -19,6 +20,9 @@ from pynguin.utils import randomness
 if TYPE_CHECKING:
     import pynguin.assertion.assertion as ass
     from pynguin.utils.generic.genericaccessibleobject import GenericAccessibleObject
+
+
+_IDENTIFIER = re.compile(r"[A-Za-z_]\w*")
 
 
 class _NameCollector(cst.CSTTransformer):
@@ -597,6 +601,13 @@ class TestCase:  # noqa: PLR0904
             stmt = self._statements[i]
             bv = stmt.bound_variable
 
+            # The assertions of a statement are checked right after it: the variables
+            # they read (e.g., ``var_0`` or ``var_0.attr``) are in use at this point.
+            for assertion in stmt.assertions:
+                source = getattr(assertion, "source", None)
+                if isinstance(source, str):
+                    alive_vars.update(_IDENTIFIER.findall(source))
+
             if bv is not None:
                 if bv in alive_vars:
                     # Variable is used later. It is NOT alive before this assignment.
@@ -610,6 +621,9 @@ class TestCase:  # noqa: PLR0904
                             node=new_node,
                             bound_variable=None,
                             bound_type=None,
+                            assertions=list(stmt.assertions),
+                            accessible=stmt.accessible,
+                            ml_info=stmt.ml_info,
                         )
                     # Even if unused, the RHS might use other variables
                     alive_vars.update(_get_used_variables(stmt))
